@@ -6,9 +6,46 @@
 import ModVerif.Model.Module
 import ModVerif.Proofs.ModulePath
 import ModVerif.Proofs.ModuleSplit
+import ModVerif.Proofs.ModuleSpec
+import ModVerif.Proofs.ModuleGlob
+import ModVerif.Proofs.ModuleMajor
 import ModVerif.Spec.PathSpec
 namespace ModVerif.Props.C06
 open ModVerif ModVerif.Module
+
+/-! ### acceptance = the documented rules (Spec/PathSpec.lean) -/
+
+/-- checkPath (the common part of the three checkers) accepts exactly the paths that satisfy the
+    documented rules of the kind: well-formed UTF-8, non-empty, no leading dash (non-file kinds), and
+    every slash-separated element non-empty, not all dots, no leading dot (module), no trailing dot,
+    only characters of the kind's class, first-dot prefix not a reserved Windows name in any case,
+    and (non-file kinds) first-dot prefix not ending in ~digits. -/
+theorem checkPath_iff (isLetter : Nat → Bool) (k : Kind) (p : Bytes) :
+    checkPath isLetter k p = .ok () ↔ PathSpec.ValidPath isLetter (toSpec k) p :=
+  checkPath_iff_spec isLetter k p
+
+/-- CheckImportPath accepts exactly the valid import paths. -/
+theorem checkImportPath_iff (p : Bytes) :
+    checkImportPath p = .ok () ↔ PathSpec.ValidPath (fun _ => false) .import_ p :=
+  checkPath_iff_spec _ .import_ p
+
+/-- CheckFilePath accepts exactly the valid file paths (for every `isLetter`). -/
+theorem checkFilePath_iff (isLetter : Nat → Bool) (p : Bytes) :
+    checkFilePath isLetter p = .ok () ↔ PathSpec.ValidPath isLetter .file p :=
+  checkPath_iff_spec isLetter .file p
+
+/-- CheckPath (module paths), proved part: acceptance is the conjunction of the general rules for kind
+    `module`, the first-element rules (non-empty, contains a dot, only lower-case letters, digits, '-'
+    and '.'), and SplitPathVersion reporting ok.  The characterisation of "SplitPathVersion reports ok"
+    by the documented major-suffix rule is `split_spec` (one direction); the converse is in PENDING.md. -/
+theorem checkModPath_iff_partial (p : Bytes) :
+    checkModPath p = .ok () ↔
+      PathSpec.ValidPath (fun _ => false) .module p ∧
+      (p.takeWhile (· != 47)) ≠ [] ∧ 46 ∈ p.takeWhile (· != 47) ∧ p.head? ≠ some 45 ∧
+      (∀ r ∈ Utf8.runes (p.takeWhile (· != 47)), firstPathOK r = true) ∧
+      (splitPathVersion p).2.2 = true := by
+  rw [checkModPath_ok_iff, checkPath_iff_spec]
+  simp [toSpec]
 
 /-! ### inclusions: module ⊆ import ⊆ file -/
 
@@ -25,6 +62,9 @@ theorem import_imp_file (isLetter : Nat → Bool) (p : Bytes) (h : checkImportPa
     (fun hk => by cases hk) (fun hk => by cases hk) h
 
 example : checkModPath (B "golang.org/x/mod") = .ok () := by decide +kernel
+example : checkFilePath (fun r => r == 233) (B "caf\u00e9/LICENSE") = .ok () := by decide +kernel
+example : checkImportPath (B "example.com/NUL.txt") = .error .windows ∧ checkImportPath (B "example.com/x~1.go") = .error .tildeDigits
+    ∧ checkImportPath (B "example.com/a..b") = .ok () := by decide +kernel
 example : checkImportPath (B "example.com/c++") = .ok () ∧ checkModPath (B "example.com/c++") = .error .invalidChar := by
   decide +kernel
 example : checkFilePath (fun _ => false) (B "a b/x~1") = .ok () ∧ checkImportPath (B "a b/x~1") = .error .invalidChar := by
@@ -67,5 +107,70 @@ example : splitPathVersion (B "golang.org/x/mod") = (B "golang.org/x/mod", [], t
 example : (splitPathVersion (B "example.com/m/v1")).2.2 = false ∧ (splitPathVersion (B "example.com/m/v02")).2.2 = false
     ∧ (splitPathVersion (B "example.com/m/v2.1")).2.2 = false ∧ (splitPathVersion (B "gopkg.in/yaml.v-unstable")).2.2 = false
     ∧ (splitPathVersion (B "gopkg.in/yaml")).2.2 = false := by decide +kernel
+
+/-! ### Check and CheckPathMajor -/
+
+/-- Check(path, version) accepts exactly when CheckPath accepts the path, the version is a valid semantic
+    version, and CheckPathMajor accepts the version for the path's major suffix.  (Proved part of
+    `check_iff`: CheckPathMajor is characterised by the three theorems below, one per documented suffix
+    shape — `split_valid_module_path` shows these are the only shapes; folding them into the single
+    predicate `PathSpec.MajorMatches` is in PENDING.md.) -/
+theorem check_iff_partial (p v : Bytes) :
+    check p v = .ok () ↔
+      checkModPath p = .ok () ∧ Semver.isValid v = true ∧ checkPathMajor v (splitPathVersion p).2.1 = true :=
+  check_ok_iff p v
+
+/-- no suffix: the version's major is v0 or v1, or the version ends in "+incompatible". -/
+theorem major_match_empty (v : Bytes) :
+    checkPathMajor v [] = true ↔
+      (Semver.major v = B "v0" ∨ Semver.major v = B "v1" ∨ Semver.build v = B "+incompatible") := by
+  rw [checkPathMajor_nil]
+  unfold PathSpec.MajorMatches
+  simp
+
+/-- suffix "/vN": the version's major is "vN". -/
+theorem major_match_slash (v n : Bytes) :
+    checkPathMajor v (47 :: 118 :: n) = true ↔ Semver.major v = 118 :: n := by
+  rw [checkPathMajor_slash]
+  unfold PathSpec.MajorMatches
+  simp
+
+/-- gopkg.in suffix ".vN" or ".vN-unstable" (N digits): the version's major is "vN", or N = 1 and the
+    version is a "v0.0.0-" pseudo-version. -/
+theorem major_match_gopkg (v n : Bytes) (hn : ∀ d ∈ n, PathSpec.isAsciiDigit d.toNat) (uns : Bool) :
+    checkPathMajor v (46 :: 118 :: (n ++ if uns then B "-unstable" else [])) = true ↔
+      (Semver.major v = 118 :: n ∨ (n = [49] ∧ isPrefixOfB (B "v0.0.0-") v = true)) :=
+  checkPathMajor_gopkg v n hn uns
+
+/-- MatchPathMajor is CheckPathMajor == nil. -/
+theorem matchPathMajor_eq (v maj : Bytes) : matchPathMajor v maj = checkPathMajor v maj := rfl
+
+example : check (B "example.com/m/v2") (B "v2.1.0") = .ok () ∧ check (B "example.com/m/v2") (B "v1.0.0") = .error .major
+    ∧ check (B "example.com/m") (B "v2.0.0+incompatible") = .ok () ∧ check (B "example.com/m") (B "v2.0.0") = .error .major
+    ∧ check (B "gopkg.in/check.v1") (B "v0.0.0-20161208181325-20d25e280405") = .ok ()
+    ∧ check (B "gopkg.in/yaml.v2-unstable") (B "v2.0.0") = .ok ()
+    ∧ check (B "example.com/m") (B "1.0.0") = .error .notSemver := by decide +kernel
+example : ∀ d ∈ ([49, 50] : Bytes), PathSpec.isAsciiDigit d.toNat := by
+  intro d hd; simp at hd; rcases hd with rfl | rfl <;> (unfold PathSpec.isAsciiDigit; decide)
+
+/-! ### MatchPrefixPatterns -/
+
+/-- Private-module pattern matching is the documented prefix-glob definition, for every `glob`
+    (path.Match is a parameter): some comma-separated pattern, after dropping one trailing slash, is
+    non-empty, has N slashes, the target has at least N+1 slash-separated elements, and the pattern
+    matches the first N+1 elements of the target. -/
+theorem matchPrefixPatterns_iff_spec (glob : Bytes → Bytes → Bool) (globs target : Bytes) :
+    matchPrefixPatterns glob globs target = true ↔ PathSpec.MatchSpec glob globs target := by
+  unfold matchPrefixPatterns PathSpec.MatchSpec
+  rw [List.any_eq_true]
+  constructor
+  · rintro ⟨g, hg, hm⟩; exact ⟨g, hg, (matchOne_iff glob g target).mp hm⟩
+  · rintro ⟨g, hg, hm⟩; exact ⟨g, hg, (matchOne_iff glob g target).mpr hm⟩
+
+-- non-vacuity with a concrete `glob` (literal equality): "golang.org/x/" matches the first two elements
+example : matchPrefixPatterns (fun a b => a == b) (B ",example.com/,golang.org/x/") (B "golang.org/x/mod") = true := by
+  decide +kernel
+example : matchPrefixPatterns (fun a b => a == b) (B "golang.org/x/mod/sub") (B "golang.org/x/mod") = false := by
+  decide +kernel
 
 end ModVerif.Props.C06
